@@ -6,8 +6,8 @@
      istio/istio1106/xds/conv/update.go       ConvertUpdateEndpoints (one load assignment)
    ONLY executable definitions; proofs are in Proofs/Update.v.
    The state has the LIVE objects (what lookups and host selection use) and the STORED configuration (what is dumped);
-   every mutator is modelled with the two writes the code makes, in the code's order.  A host is its address (NewHostSet
-   keeps one host per address). *)
+   every mutator is modelled with the two writes the code makes, in the code's order.  A host carries everything v2.Host
+   carries (address, weight, hostname, tls_disable, metadata); NewHostSet keeps the FIRST host of every address. *)
 From Coq Require Import List String Bool Arith.
 From MV Require Import Model.Router.
 Import ListNotations.
@@ -20,7 +20,20 @@ Record live_router := { lr_cfg : config; lr_tab : table }.
    rw_stored is the copy configmanager.SetRouter keeps *)
 Record rwrap := { rw_live : option live_router; rw_stored : config }.
 
-Record cluster := { cl_lb : nat; cl_hosts : list string }.
+(* v2.Host / simpleHost: metadata as a key-sorted association list *)
+Record host := { h_addr : string; h_weight : nat; h_name : string; h_tls_disable : bool; h_meta : list (string * string) }.
+
+Record cluster := { cl_lb : nat; cl_hosts : list host }.
+
+(* one xDS LbEndpoint: address and optional load_balancing_weight (clamped to [1,128] by ConvertEndpointsConfig) *)
+Record endpoint := { ep_addr : string; ep_weight : option nat }.
+Definition ep_to_host (e : endpoint) : host :=
+  {| h_addr := ep_addr e;
+     h_weight := match ep_weight e with
+                 | None => 0
+                 | Some w => if Nat.ltb w 1 then 1 else if Nat.ltb 128 w then 128 else w
+                 end;
+     h_name := ""; h_tls_disable := false; h_meta := [] |}.
 
 Record state := {
   st_routers : list (string * rwrap);
@@ -53,13 +66,13 @@ Inductive op :=
 | OAddOrUpdateRouters (name : string) (c : config)
 | OAddRoute (name domain : string) (r : route)
 | ORemoveAllRoutes (name domain : string)
-| OAddOrUpdateCluster (name : string) (lb : nat) (cfg_hosts : list string)        (* TriggerClusterAddOrUpdate: keeps the live hosts *)
-| OAddOrUpdateClusterAndHosts (name : string) (lb : nat) (cfg_hosts hosts : list string)
+| OAddOrUpdateCluster (name : string) (lb : nat) (cfg_hosts : list host)          (* TriggerClusterAddOrUpdate: keeps the live hosts *)
+| OAddOrUpdateClusterAndHosts (name : string) (lb : nat) (cfg_hosts hosts : list host)
 | ORemoveClusters (names : list string)
-| OUpdateHosts (name : string) (hosts : list string)
-| OAppendHosts (name : string) (hosts : list string)
+| OUpdateHosts (name : string) (hosts : list host)
+| OAppendHosts (name : string) (hosts : list host)
 | ORemoveHosts (name : string) (addrs : list string)
-| OEndpoints (name : string) (localities : list (list string)).                     (* one ClusterLoadAssignment *)
+| OEndpoints (name : string) (localities : list (list endpoint)).                   (* one ClusterLoadAssignment *)
 
 (* routers_impl.go findVirtualHostIndex(domain): the domain is NOT lower-cased here *)
 Definition vhost_index_of_domain (t : table) (domain : string) : option nat :=
@@ -117,22 +130,22 @@ Definition step_route_change (s : state) (name domain : string) (bad : bool) (f 
   end.
 
 (* refreshHostsConfig -> configmanager.SetHosts: only if the stored configuration has the cluster *)
-Definition set_hosts_cfg (name : string) (hosts : list string) (cfg : list (string * cluster)) : list (string * cluster) :=
+Definition set_hosts_cfg (name : string) (hosts : list host) (cfg : list (string * cluster)) : list (string * cluster) :=
   match mget name cfg with
   | Some c => mset name {| cl_lb := cl_lb c; cl_hosts := hosts |} cfg
   | None => cfg
   end.
 
 (* clusterManager.UpdateCluster with the handler's resulting host list *)
-Definition step_update_cluster (s : state) (name : string) (lb : nat) (cfg_hosts : list string)
-           (new_hosts : option cluster -> list string) : state * bool :=
+Definition step_update_cluster (s : state) (name : string) (lb : nat) (cfg_hosts : list host)
+           (new_hosts : option cluster -> list host) : state * bool :=
   let cfg1 := mset name {| cl_lb := lb; cl_hosts := cfg_hosts |} (st_cfg_clusters s) in     (* SetClusterConfig *)
   let hosts := new_hosts (mget name (st_clusters s)) in
   let live := mset name {| cl_lb := lb; cl_hosts := hosts |} (st_clusters s) in              (* clustersMap.Store *)
   (set_clusters s live (set_hosts_cfg name hosts cfg1), true).                               (* refreshHostsConfig *)
 
 (* clusterManager.UpdateHosts with a host handler *)
-Definition step_update_hosts (s : state) (name : string) (f : list string -> list string) : state * bool :=
+Definition step_update_hosts (s : state) (name : string) (f : list host -> list host) : state * bool :=
   match mget name (st_clusters s) with
   | None => (s, false)
   | Some c =>
@@ -142,31 +155,40 @@ Definition step_update_hosts (s : state) (name : string) (f : list string -> lis
   end.
 
 (* NewHostSet keeps the first host of every address *)
-Fixpoint dedup (l : list string) : list string :=
+Fixpoint dedup (l : list host) : list host :=
   match l with
   | [] => []
-  | x :: l' => x :: filter (fun y => negb (String.eqb y x)) (dedup l')
+  | x :: l' => x :: filter (fun y => negb (String.eqb (h_addr y) (h_addr x))) (dedup l')
   end.
 
-Fixpoint remove_one (a : string) (l : list string) : list string :=
+(* RemoveClusterHosts: one host of that address, if any *)
+Fixpoint remove_one (a : string) (l : list host) : list host :=
   match l with
   | [] => []
-  | x :: l' => if String.eqb x a then l' else x :: remove_one a l'
+  | x :: l' => if String.eqb (h_addr x) a then l' else x :: remove_one a l'
+  end.
+
+(* the host a lookup by address finds *)
+Fixpoint find_host (a : string) (l : list host) : option host :=
+  match l with
+  | [] => None
+  | x :: l' => if String.eqb (h_addr x) a then Some x else find_host a l'
   end.
 
 (* ConvertUpdateEndpoints for one load assignment.  per_locality (read from the source: Gen/EndpointSrc.v) = the host
    update is issued inside the loop over the localities *)
-Fixpoint endpoints_per_locality (s : state) (name : string) (ls : list (list string)) (ok : bool) : state * bool :=
+Fixpoint endpoints_per_locality (s : state) (name : string) (ls : list (list endpoint)) (ok : bool) : state * bool :=
   match ls with
   | [] => (s, ok)
-  | l :: ls' => let (s', r) := step_update_hosts s name (fun _ => dedup l) in endpoints_per_locality s' name ls' (andb ok r)
+  | l :: ls' => let (s', r) := step_update_hosts s name (fun _ => dedup (map ep_to_host l)) in
+                endpoints_per_locality s' name ls' (andb ok r)
   end.
 
-Definition step_endpoints (per_locality : bool) (s : state) (name : string) (ls : list (list string)) : state * bool :=
+Definition step_endpoints (per_locality : bool) (s : state) (name : string) (ls : list (list endpoint)) : state * bool :=
   match ls with
   | [] => step_update_hosts s name (fun _ => [])
   | _ => if per_locality then endpoints_per_locality s name ls true
-         else step_update_hosts s name (fun _ => dedup (List.concat ls))
+         else step_update_hosts s name (fun _ => dedup (map ep_to_host (List.concat ls)))
   end.
 
 Definition step (per_locality : bool) (s : state) (o : op) : state * bool :=
@@ -262,11 +284,20 @@ Fixpoint crun (s : cstate) (es : list ev) : cstate :=
   match es with [] => s | e :: es' => crun (fst (cstep s e)) es' end.
 
 (* ------------------------------------------------------------------ correspondence cases *)
-Fixpoint count_str (a : string) (l : list string) : nat :=
-  match l with [] => 0 | x :: l' => (if String.eqb x a then 1 else 0) + count_str a l' end.
-(* same multiset of addresses *)
-Definition same_hosts (a b : list string) : bool :=
-  andb (Nat.eqb (List.length a) (List.length b)) (forallb (fun x => Nat.eqb (count_str x a) (count_str x b)) a).
+Fixpoint pairs_eqb (a b : list (string * string)) : bool :=
+  match a, b with
+  | [], [] => true
+  | (k, v) :: a', (k', v') :: b' => andb (String.eqb k k') (andb (String.eqb v v') (pairs_eqb a' b'))
+  | _, _ => false
+  end.
+Definition host_eqb (x y : host) : bool :=
+  andb (String.eqb (h_addr x) (h_addr y)) (andb (Nat.eqb (h_weight x) (h_weight y))
+  (andb (String.eqb (h_name x) (h_name y)) (andb (Bool.eqb (h_tls_disable x) (h_tls_disable y)) (pairs_eqb (h_meta x) (h_meta y))))).
+(* same hosts WITH attributes: equally many, and every host of a is the host b has at that address (addresses are unique
+   in a live host set) *)
+Definition same_hosts (a b : list host) : bool :=
+  andb (Nat.eqb (List.length a) (List.length b))
+       (forallb (fun x => match find_host (h_addr x) b with Some y => host_eqb x y | None => false end) a).
 
 Fixpoint bools_eqb (a b : list bool) : bool :=
   match a, b with
@@ -278,7 +309,7 @@ Fixpoint bools_eqb (a b : list bool) : bool :=
 (* observed after a history: per router name the lookups (request, cluster of MatchRoute, clusters of MatchAllRoutes);
    per cluster name None (absent) or (lb type, addresses) *)
 Definition router_obs := (string * list (request * option string * list string))%type.
-Definition cluster_obs := (string * option (nat * list string))%type.
+Definition cluster_obs := (string * option (nat * list host))%type.
 (* operations, per-operation results, live observations, and the same observations on objects rebuilt from the dump *)
 Definition up_case := (list op * list bool * list router_obs * list cluster_obs * list router_obs * list cluster_obs)%type.
 
